@@ -28,12 +28,30 @@ FLOORS = {"quick": {"view_checks": 8000, "pair_checks": 50000, "epoch2_view_chec
 
 def gen_case(rng, cfg, idx):
     for _ in range(10):
+        direct = idx % 8 == 5
         b, base, _ = gen_history(rng, nstmts=cfg["nstmts"], int_prob=0.0, nonconst_only=True, inplace_w=0, setshape_w=0, view_w=6, read_w=3,
-                                 second_family_prob=0.2)
-        L = add_readout(b, rng, max_terms=5)
+                                 second_family_prob=0.2, layouts=["F", "T", "F", "neg", "C"] if direct else None, max_ndim=3 if not direct else 2,
+                                 base_from_op_prob=0.4 if not direct else 0.3)
+        if direct and np.ndim(b.val(base)) == 2:
+            # layout-sensitive view chains of the terminal itself: transpose, then flatten (a view exactly when the memory order allows)
+            vt = b.call("T", [B.R(base)], sp="mg", prefix="w")
+            if vt is not None:
+                b.call(rng.choice(["ravel", "flatten_view"]) if False else "ravel", [B.R(vt)], sp=rng.choice(["mg", "meth"]), prefix="w")
+                b.call("reshape", [B.R(vt), ["t", [-1]]], sp="mg", prefix="w")
+            b.call("ravel", [B.R(base)], sp="mg", prefix="w")
+        if direct and np.size(b.val(base)) > 1:
+            # backward() called directly on the (non-scalar) base of the views, in whatever memory layout it has: the seed gradient is
+            # its gradient, and every view's gradient is the corresponding view of it
+            L = base
+        else:
+            L = add_readout(b, rng, max_terms=5)
         if L is None:
             continue
-        b.prog.append({"k": "backward", "tgt": L, "seed": None})
+        seed = None
+        if direct and L == base and rng.random() < 0.6:
+            from mgverif.prog import enc_arr
+            seed = enc_arr(B.rand_values(rng, np.shape(b.val(base)), 0.3, 1.5))     # an explicit (C-ordered) seed for a terminal of any layout
+        b.prog.append({"k": "backward", "tgt": L, "seed": seed})
         epoch2_from = None
         if idx % 4 == 3:
             # a second graph epoch over survivors of the cleared graph (former views included): new views of them, consumers, backward
